@@ -2,6 +2,7 @@ package main
 
 import (
 	"context"
+	"sync/atomic"
 	"fmt"
 	"net"
 	"time"
@@ -213,3 +214,70 @@ func runListener(c *lisCase) (*lisObs, string) {
 }
 
 var _ = vlauth.StatusAllow
+
+// ---- Stop while a session's connection end is in progress ----
+
+type cloObs struct {
+	Early    bool `json:"early"`    // Stop returned while the hand-over to persistence was still held
+	Returned bool `json:"returned"` // Stop returned after the hand-over was let go
+	UnAck    int  `json:"unack"`    // unacknowledged messages of the session in persistence afterwards
+}
+
+func runStopDuringClose() (*cloObs, string) {
+	obs := &cloObs{}
+	mp, err := persistenceMem.Load(nil, nil)
+	if err != nil {
+		return obs, err.Error()
+	}
+	gate := newPersistGate(mp)
+	defer gate.Release()
+	b, err := NewBroker(BrokerOpts{Persist: gate})
+	if err != nil {
+		return obs, err.Error()
+	}
+	defer b.Drop()
+	cl := b.Dial()
+	if _, err := cl.Connect(ConnectOpts{ID: "cz", Ver: mqttp.ProtocolV311, Clean: false}); err != nil {
+		return obs, "connect: " + err.Error()
+	}
+	a := cl.Auto(true) // acknowledges nothing by itself
+	_ = a.SendL(mkSubscribe(mqttp.ProtocolV311, 1, []string{"t"}, []byte{1}))
+	if !a.WaitFor(5*time.Second, func() bool { return len(a.Others) >= 1 }) {
+		return obs, "no suback"
+	}
+	pc := b.Dial()
+	if _, err := pc.Connect(ConnectOpts{ID: "cp", Ver: mqttp.ProtocolV311, Clean: true}); err != nil {
+		return obs, "publisher: " + err.Error()
+	}
+	pa := pc.Auto(false)
+	_ = pa.SendL(mkPublish(mqttp.ProtocolV311, "t", []byte{7}, 1, false, 1))
+	if !a.WaitFor(5*time.Second, func() bool { return len(a.Pubs) >= 1 }) {
+		return obs, "the message did not arrive"
+	}
+	gate.ArmBulk("cz")
+	a.Close()
+	if !gate.WaitEntered(5 * time.Second) {
+		return obs, "the connection end did not reach the hand-over to persistence"
+	}
+	atomic.StoreInt32(&b.mgrDown, 1)
+	done := make(chan struct{})
+	go func() { _ = b.Mgr.Stop(); _ = b.Mgr.Shutdown(); close(done) }()
+	select {
+	case <-done:
+		obs.Early = true
+	case <-time.After(400 * time.Millisecond):
+	}
+	gate.Release()
+	select {
+	case <-done:
+		obs.Returned = true
+	case <-time.After(8 * time.Second):
+		return obs, "Stop did not return"
+	}
+	time.Sleep(50 * time.Millisecond)
+	if ss, err := mp.Sessions(); err == nil {
+		n, _ := ss.PacketCountUnAck([]byte("cz"))
+		obs.UnAck = int(n)
+	}
+	return obs, ""
+}
